@@ -35,7 +35,7 @@ ASSUMPTIONS = [
     "be found but never excluded by this technique",
 ]
 
-FORMS = ("dict", "json", "envelope")
+FORMS = ("dict", "json", "envelope", "json-envelope")
 METHODS = [("row_order", ()), ("row_order", (1,)), ("column_order", ()), ("column_order", (1,)),
            ("pairwise_significance_t_stats", (0,)), ("pairwise_significance_p_vals", (0,))]
 CUBE_PROPS = ["counts", "unweighted_counts", "dimension_types", "name", "description", "missing",
@@ -439,6 +439,7 @@ def execute_setup(sc):
         "dict": resps,
         "json": [json.dumps(r) for r in resps],
         "envelope": [{"value": r} for r in resps],   # wraps the SAME dict objects
+        "json-envelope": [json.dumps({"value": r}) for r in resps],  # a shoji response as text
         "tx": _shared_transforms(sc),
     }
 
@@ -707,7 +708,8 @@ def judge_forms(sc, rec):
     snaps = []
     for form in FORMS:
         arg = {"dict": copy.deepcopy(resp), "json": json.dumps(resp),
-               "envelope": {"value": copy.deepcopy(resp)}}[form]
+               "envelope": {"value": copy.deepcopy(resp)},
+               "json-envelope": json.dumps({"value": resp})}[form]
         cube = lib.Cube(arg, transforms=copy.deepcopy(tx), population=sc["population"],
                         mask_size=sc["mask_size"])
         parts = cube.partitions
